@@ -1888,7 +1888,14 @@ pub enum ArchiveError {
 
 impl From<io::Error> for ArchiveError {
     fn from(err: io::Error) -> Self {
-        Self::Io(err)
+        // Reading past the end of the file means that a length or position
+        // stored in the archive is wrong, i.e., the archive is broken.
+        if err.kind() == io::ErrorKind::UnexpectedEof {
+            Self::Corrupt("unexpected end of archive")
+        }
+        else {
+            Self::Io(err)
+        }
     }
 }
 
@@ -1915,7 +1922,7 @@ pub enum OpenError {
 
 impl From<io::Error> for OpenError {
     fn from(err: io::Error) -> Self {
-        ArchiveError::Io(err).into()
+        ArchiveError::from(err).into()
     }
 }
 
